@@ -26,11 +26,11 @@ SymDelims == {"~", "!", "@", "#", "$", "%", "^", "&", "*", ";", "/", "|"}
 DelimOpen == PairOpen \cup SymDelims
 Close(c)  == CASE c = "(" -> ")" [] c = "[" -> "]" [] c = "{" -> "}" [] c = "<" -> ">" [] OTHER -> c
 
-Letters     == {"a", "x"}
+Letters     == {"a", "x", "u", "f"}          \* "u", "f" only arise as chopped "up", "f2" (see ChopLast)
 SingleChars == Letters \cup DelimOpen \cup {")", "]", "}", ">", " ", "+", ",", ":"}
 
 (* key names: atom -> canonical event name ("" = unsupported).  return is the documented synonym of enter. *)
-NamedKeys == {"ctrl-a", "enter", "return", "f2", "alt-x", "space", "load", "change", "tab", "up"}
+NamedKeys == {"ctrl-a", "enter", "return", "f2", "alt-x", "space", "load", "change", "tab", "up", "down"}
 KeyCanon(k) == IF k = "return" THEN "enter"
                ELSE IF k = " " THEN "space"
                ELSE IF k \in NamedKeys \cup SingleChars THEN k
@@ -134,22 +134,43 @@ ERR == [err |-> TRUE]
 (* lies between the character after the name and the last character                                             *)
 IsExecSpec(spec) == /\ Len(spec) >= 2 /\ spec[1] \in ExecNames /\ ~Letterish(spec[2])
                     /\ Escape(Mask(<<":">> \o spec)) # <<":">> \o spec
+(* CODE-DERIVED: the argument is the piece without name, opening character and LAST CHARACTER - whatever that is. *)
+(* For the documented forms the last character is the closing delimiter; on malformed pieces that the escapes    *)
+(* let through (`change-multi,:toggle-preview`) it is the last character of the last atom.                       *)
+ChopLast(a) == CASE a = "ctrl-a" -> "ctrl-" [] a = "enter" -> "ente" [] a = "return" -> "retur" [] a = "f2" -> "f"
+                 [] a = "alt-x" -> "alt-" [] a = "space" -> "spac" [] a = "load" -> "loa" [] a = "change" -> "chang"
+                 [] a = "tab" -> "ta" [] a = "up" -> "u" [] a = "down" -> "dow" [] a = "accept" -> "accep"
+                 [] a = "abort" -> "abor" [] a = "select-all" -> "select-al" [] a = "toggle-down" -> "toggle-dow"
+                 [] a = "preview-up" -> "preview-u" [] a = "print-query" -> "print-quer"
+                 [] a = "toggle-preview" -> "toggle-previe" [] a = "change-multi" -> "change-mult" [] a = "put" -> "pu"
+                 [] a = "bogus" -> "bogu" [] a = "execute" -> "execut" [] a = "execute-silent" -> "execute-silen"
+                 [] a = "reload" -> "reloa" [] a = "change-prompt" -> "change-promp"
+                 [] a = "transform-query" -> "transform-quer" [] a = "unbind" -> "unbin"
+                 [] OTHER -> ""                                                      \* single characters
+ArgAtoms(spec) == IF spec[2] = ":" THEN SubSeq(spec, 3, Len(spec))
+                  ELSE SubSeq(spec, 3, Len(spec) - 1)
+                       \o (IF Len(spec) >= 3 /\ ChopLast(spec[Len(spec)]) # "" THEN <<ChopLast(spec[Len(spec)])>> ELSE <<>>)
 OneAction(spec, first, prev, putOK) ==
     IF spec = <<>> THEN (IF first THEN [err |-> FALSE, acts |-> prev] ELSE ERR)       \* leading "+": append
     ELSE IF Len(spec) = 1 /\ spec[1] \in PlainNames
          THEN IF spec[1] = "put" /\ ~putOK THEN ERR
               ELSE [err |-> FALSE, acts |-> [n \in 1..Len(PlainTypes(spec[1])) |-> Act(PlainTypes(spec[1])[n], "")]]
     ELSE IF IsExecSpec(spec)
-         THEN LET arg == IF spec[2] = ":" THEN SubSeq(spec, 3, Len(spec)) ELSE SubSeq(spec, 3, Len(spec) - 1) IN
+         THEN LET arg == ArgAtoms(spec) IN
               IF spec[1] \in KeyListArg /\ ~KeyList(arg).ok THEN ERR
               ELSE [err |-> FALSE, acts |-> <<Act(spec[1], Str(arg))>>]
     ELSE ERR                                                                           \* unknown action
-RECURSIVE ActionsFrom(_, _, _, _, _, _)
-ActionsFrom(ranges, orig, n, prev, putOK, acc) ==
+RECURSIVE ActionsFrom(_, _, _, _, _, _, _)
+(* CODE-DERIVED: a `name:rest` piece that is not the last one (possible only after an unterminated argument stopped *)
+(* the masking) swallows the following pieces: it is carried over, "+" re-inserted                                  *)
+ActionsFrom(ranges, orig, n, prev, putOK, acc, carry) ==
     IF n > Len(ranges) THEN [err |-> FALSE, acts |-> acc]
-    ELSE LET r == OneAction(SubSeq(orig, ranges[n][1], ranges[n][2]), n = 1, prev, putOK) IN
-         IF r.err THEN ERR ELSE ActionsFrom(ranges, orig, n + 1, prev, putOK, acc \o r.acts)
-ParseActions(masked, orig, prev, putOK) == ActionsFrom(SplitIdx(masked, "+", 1, 1), orig, 1, prev, putOK, <<>>)
+    ELSE LET spec == carry \o SubSeq(orig, ranges[n][1], ranges[n][2]) IN
+         IF n < Len(ranges) /\ IsExecSpec(spec) /\ spec[2] = ":"
+         THEN ActionsFrom(ranges, orig, n + 1, prev, putOK, acc, spec \o <<"+">>)
+         ELSE LET r == OneAction(spec, n = 1, prev, putOK) IN
+              IF r.err THEN ERR ELSE ActionsFrom(ranges, orig, n + 1, prev, putOK, acc \o r.acts, <<>>)
+ParseActions(masked, orig, prev, putOK) == ActionsFrom(SplitIdx(masked, "+", 1, 1), orig, 1, prev, putOK, <<>>, <<>>)
 
 Bound(km, key) == IF key \in DOMAIN km THEN km[key] ELSE <<>>
 Bind(km, key, acts) == [k \in DOMAIN km \cup {key} |-> IF k = key THEN acts ELSE km[k]]
